@@ -277,7 +277,21 @@ package keyvalue
 //@   modifies f.mode, oncedone(f.modeOnce)
 //@   ensures "override" implies(f.modeOverride != nil, m == *f.modeOverride)
 //@   ensures "record" implies(f.modeOverride == nil, m == old(modeOf(f.runOnceFileRecord)))
+//@   ensures "stable" modeOf(f.runOnceFileRecord) == old(modeOf(f.runOnceFileRecord)) && implies(old(oncedone(f.modeOnce)), oncedone(f.modeOnce) && f.mode == old(f.mode))
 //@   nopanic
+
+// Abstract attributes of a record handed to a store: a handle's own record view (*fileData) is read through its
+// overrides and caches, any other record through the FileRecord interface contract.
+//@ spec fdMode(d *fileData) := ite(d.modeOverride != nil, *d.modeOverride, modeOf(d.runOnceFileRecord))
+//@ spec fdMTime(d *fileData) := ite(d.modTimeOverride != 0, d.modTimeOverride, mtimeOf(d.runOnceFileRecord))
+//@ spec fdData(d *fileData) := ite(d.runOnceFileRecord.dataDone == 1, d.runOnceFileRecord.data, recDataBlob(d.runOnceFileRecord))
+//@ spec fdDataErr(d *fileData) := ite(d.runOnceFileRecord.dataDone == 1, d.runOnceFileRecord.dataErr, recDataErr(d.runOnceFileRecord))
+//@ spec fdInv(d *fileData) := d != nil && roInv(d.runOnceFileRecord) && implies(fdDataErr(d) == nil, blob.blobOK(fdData(d)))
+//@ spec srcOK(src FileRecord) := implies(isType(src, *fileData), fdInv(src.(*fileData)))
+//@ spec srcMode(src FileRecord) := ite(isType(src, *fileData), fdMode(src.(*fileData)), ret("keyvalue.(FileRecord).Mode", 0, src))
+//@ spec srcMTime(src FileRecord) := ite(isType(src, *fileData), fdMTime(src.(*fileData)), ret("keyvalue.(FileRecord).ModTime", 0, src))
+//@ spec srcData(src FileRecord) := ite(isType(src, *fileData), fdData(src.(*fileData)), ret("keyvalue.(FileRecord).Data", 0, src))
+//@ spec srcDataErr(src FileRecord) := ite(isType(src, *fileData), fdDataErr(src.(*fileData)), ret("keyvalue.(FileRecord).Data", 1, src))
 
 // ---- file handles (file.go) ----
 
@@ -385,10 +399,40 @@ package keyvalue
 
 // ---- write path ----
 
+//@ spec isReg(m hackpadfs.FileMode) := m & hackpadfs.ModeType == 0
+//@ spec fdCache(src FileRecord) := src.(*fileData).runOnceFileRecord
+//@ spec memSame(fs *FS) := mem.sameAll(ms(fs))
+//@ spec memSameExcept(fs *FS, path string) := mem.sameExcept(ms(fs), path)
+//@ spec memRec(fs *FS, path string) := kvRec(fs, path).(mem.fileRecord)
+//@ spec cacheMono(r *runOnceFileRecord) := roInv(r) && r.record == old(r.record) &&
+//@        implies(old(r.dataDone) == 1, r.data == old(r.data) && r.dataErr == old(r.dataErr)) &&
+//@        implies(old(oncedone(r.modeOnce)), oncedone(r.modeOnce) && r.mode == old(r.mode)) &&
+//@        implies(old(oncedone(r.modTimeOnce)), oncedone(r.modTimeOnce) && r.modTime == old(r.modTime))
+//@ spec srcKept(src FileRecord) := implies(isType(src, *fileData), cacheMono(src.(*fileData).runOnceFileRecord)) &&
+//@        implies(src != nil && world() == old(world()), srcData(src) == old(srcData(src)) && srcDataErr(src) == old(srcDataErr(src)) && srcMode(src) == old(srcMode(src)) &&
+//@        srcMTime(src) == old(srcMTime(src)) && srcOK(src))
+
+// setFile: one read-write transaction holding a single Set. FS operations validate the path before they get here.
 //@ func (fs *FS) setFile(path string, file FileRecord) (err error)
-//@   props C14 C01
-//@   deterministic
-//@   requires fs != nil
+//@   props C14 C01 C03 C17
+//@   requires fsInv(fs) && (isMem(fs) || isSerial(fs)) && VP(path) && srcOK(file)
+//@   dispatch FileRecord *fileData
+//@   dispatch Transaction *mem.transaction *unsafeSerialTransaction
+//@   modifies world(), mapOf(ms(fs).records), held(ms(fs).mu),
+//@            fdCache(file).data, fdCache(file).dataErr, fdCache(file).dataDone, oncedone(fdCache(file).dataOnce),
+//@            fdCache(file).mode, oncedone(fdCache(file).modeOnce), fdCache(file).modTime, oncedone(fdCache(file).modTimeOnce)
+//@   ensures "inv" fsInv(fs)
+//@   ensures "src-kept" srcKept(file)
+//@   ensures "data-error" implies(file != nil && isReg(old(srcMode(file))) && old(srcDataErr(file)) != nil, err == old(srcDataErr(file)) && world() == old(world()) && implies(isMem(fs), memSame(fs)))
+//@   ensures "mem-data-error" [C14] implies(isMem(fs) && file != nil && old(srcDataErr(file)) != nil, err != nil && memSame(fs))
+//@   ensures "mem-delete" implies(isMem(fs) && file == nil, err == nil && !kvHas(fs, path) && memSameExcept(fs, path) && world() == old(world()))
+//@   ensures "mem-store" implies(isMem(fs) && file != nil && old(srcDataErr(file)) == nil, err == nil && kvHas(fs, path) && memSameExcept(fs, path) && world() == old(world()) &&
+//@                     isType(kvRec(fs, path), mem.fileRecord) && memRec(fs, path).store == ms(fs) && memRec(fs, path).path == path &&
+//@                     memRec(fs, path).data == old(srcData(file)) && memRec(fs, path).mode == old(srcMode(file)) && memRec(fs, path).modTime == old(srcMTime(file)))
+//@   ensures "serial-set" implies(isSerial(fs) && (file == nil || old(srcDataErr(file)) == nil || !isReg(old(srcMode(file)))),
+//@                     err == old(storeSetErr(fsStore(fs), path, file)) && world() == old(storeSetW(fsStore(fs), path, file)))
+//@   ensures "accepted" [C14] implies(err == nil && isSerial(fs), old(storeSetErr(fsStore(fs), path, file)) == nil)
+//@   nopanic
 
 //@ func (f *fileData) save() (err error)
 //@   props C14
